@@ -1,3 +1,4 @@
+import Sparrow.Proofs.VisibilityFnEquiv
 import Sparrow.Proofs.BakeGlueEquiv
 import Sparrow.Proofs.PointInRect
 import Sparrow.Proofs.VisibilityLemmas
@@ -167,3 +168,46 @@ theorem bakeGeometry_form_factors
   Sparrow.bakeGeometry_form_factors vis2 ffu P pc pn pp pa ptw hasM W nIn D T dIn dOut bidx brdf fnone B att junk
 
 end Sparrow.Props.C07.BakeGlue
+
+namespace Sparrow.Props.C07.VisibilityFn
+open Sparrow Sparrow.Generated.VisibilityFn
+
+
+theorem projectToPlaneT_eq (thr eps : ℝ) (o p pp n : Nat → ℝ) :
+    (projectToPlaneT thr o p pp n eps).map Vec3.ofFn =
+      projectToPlane eps (Vec3.ofFn o) (Vec3.ofFn p) (Vec3.ofFn pp) (Vec3.ofFn n) :=
+  Sparrow.projectToPlaneT_eq thr eps o p pp n
+
+/-- **`_basic_visibility` as translated = the model's decision table**, for a membership test that reads the three
+    coordinates of its point -/
+theorem basicVisibilityT_eq (thr eta : ℝ) (pip : (Nat → ℝ) → Bool) (a b : Nat → ℝ) (sp : Nat → Nat → ℝ) (nsp : Nat)
+    (normal : Nat → ℝ) (hpip : ∀ f g : Nat → ℝ, f 0 = g 0 → f 1 = g 1 → f 2 = g 2 → pip f = pip g) :
+    basicVisibilityT thr pip a b sp nsp normal eta eta =
+      basicVisibilityWith eta (fun v => pip (fun q => Vec3.get v q)) (Vec3.ofFn a) (Vec3.ofFn b)
+        (Vec3.ofFn (fun q => sp 0 q)) (Vec3.ofFn normal) :=
+  Sparrow.basicVisibilityT_eq thr eta pip a b sp nsp normal hpip
+
+/-- **the point-to-patches scan** (`_check_point2patch_visibility`, recognised, over the translated `_basic_visibility`):
+    patch `i` is visible from the point iff no surface of the scene hides it — the model's conjunction over all surfaces -/
+theorem checkPoint2PatchVisibility_eq (thr eta : ℝ) (pip : Nat → (Nat → ℝ) → Bool) (x : Nat → ℝ) (pc : Nat → Nat → ℝ)
+    (sp : Nat → Nat → Nat → ℝ) (nsp : Nat) (normals : Nat → Nat → ℝ) (nS i : Nat)
+    (hpip : ∀ s (f g : Nat → ℝ), f 0 = g 0 → f 1 = g 1 → f 2 = g 2 → pip s f = pip s g) :
+    checkPoint2PatchVisibility (fun a b s => basicVisibilityT thr (pip s) a b (fun k q => sp s k q) nsp (fun q => normals s q) eta eta)
+        x pc nS i =
+      (List.range nS).all fun s =>
+        basicVisibilityWith eta (fun v => pip s (fun q => Vec3.get v q)) (Vec3.ofFn x) (Vec3.ofFn (fun q => pc i q))
+          (Vec3.ofFn (fun q => sp s 0 q)) (Vec3.ofFn (fun q => normals s q)) :=
+  Sparrow.checkPoint2PatchVisibility_eq thr eta pip x pc sp nsp normals nS i hpip
+
+/-- **the patch-to-patch scan** (`_check_patch2patch_visibility`): the upper triangle of the matrix, same conjunction -/
+theorem checkPatch2PatchVisibility_eq (thr eta : ℝ) (pip : Nat → (Nat → ℝ) → Bool) (pc : Nat → Nat → ℝ)
+    (sp : Nat → Nat → Nat → ℝ) (nsp : Nat) (normals : Nat → Nat → ℝ) (nS i j : Nat)
+    (hpip : ∀ s (f g : Nat → ℝ), f 0 = g 0 → f 1 = g 1 → f 2 = g 2 → pip s f = pip s g) :
+    checkPatch2PatchVisibility (fun a b s => basicVisibilityT thr (pip s) a b (fun k q => sp s k q) nsp (fun q => normals s q) eta eta)
+        pc nS i j =
+      (decide (i < j) && (List.range nS).all fun s =>
+        basicVisibilityWith eta (fun v => pip s (fun q => Vec3.get v q)) (Vec3.ofFn (fun q => pc i q)) (Vec3.ofFn (fun q => pc j q))
+          (Vec3.ofFn (fun q => sp s 0 q)) (Vec3.ofFn (fun q => normals s q))) :=
+  Sparrow.checkPatch2PatchVisibility_eq thr eta pip pc sp nsp normals nS i j hpip
+
+end Sparrow.Props.C07.VisibilityFn
